@@ -13,8 +13,8 @@ ASSUME TLCSet(1, JsonDeserialize(IOEnv.SCEN))
 Scens == TLCGet(1)
 N == Len(Scens)
 
-VARIABLES sid, st, rt, fresh      \* rt = Rates(P, st), computed once per state
-vars == <<sid, st, rt, fresh>>
+VARIABLES sid, st, rt, fresh, mono  \* rt = Rates(P, st), computed once per state; mono = Monotone held on the last step
+vars == <<sid, st, rt, fresh, mono>>
 P == Scens[sid]
 
 Sampled(Q, s) ==
@@ -23,7 +23,7 @@ Sampled(Q, s) ==
    hon   |-> [h \in Hosts(Q) |-> HostOn(Q, s, h)],
    pst   |-> [h \in Hosts(Q) |-> s.pst[h]],
    bw    |-> [l \in Links(Q) |-> Bw(Q, s, l)],
-   lat   |-> [l \in Links(Q) |-> IF HasProfile(Q.links[l].latprof) THEN ValueAt(Q.links[l].latprof, s.now) ELSE Q.links[l].lat],
+   lat   |-> [l \in Links(Q) |-> Lat(Q, s, l)],
    lon   |-> [l \in Links(Q) |-> LinkOn(Q, s, l)]]
 
 \* pre: state right after the clock moved; post: settled state at the same date; old: settled state before the step
@@ -37,23 +37,27 @@ ObsOf(Q, old, pre, post) ==
    he |-> pre.he, le |-> pre.le,
    ast |-> post.ast, fin |-> post.fin, val |-> Sampled(Q, post)]
 
-Init == sid = 1 /\ st = Begin(Scens[1]) /\ rt = Rates(Scens[1], st) /\ fresh = TRUE
+Init == sid = 1 /\ st = Begin(Scens[1]) /\ rt = Rates(Scens[1], st) /\ fresh = TRUE /\ mono = TRUE
 
 StepOn == /\ CanStepR(P, st, rt)
           /\ \E pre \in { PreR(P, st, rt) } : \E post \in { Settle(P, pre) } :
                 /\ st' = post
                 /\ rt' = Rates(P, post)
+                /\ mono' = Monotone(P, st, post)
                 /\ PrintT(<<"OBS", sid, ToJson(ObsOf(P, st, pre, post))>>)
           /\ sid' = sid /\ fresh' = FALSE
 Finish == /\ ~CanStepR(P, st, rt)
           /\ PrintT(<<"FIN", sid, ToJson([ast |-> st.ast, fin |-> st.fin, t |-> st.now, val |-> Sampled(P, st)])>>)
           /\ sid < N
-          /\ sid' = sid + 1 /\ fresh' = TRUE
+          /\ sid' = sid + 1 /\ fresh' = TRUE /\ mono' = TRUE
           /\ \E nxt \in { Begin(Scens[sid + 1]) } : st' = nxt /\ rt' = Rates(Scens[sid + 1], nxt)
 Next == StepOn \/ Finish
 
 Inv == TimelineInvR(P, st, rt)
-Mono == [][(sid' = sid) => Monotone(P, st, st')]_vars
+\* Monotone (remaining never increases, energy never decreases, time moves on) is an action property; it is recorded
+\* in the state by the step itself and checked as an invariant (a PROPERTY would make TLC run its liveness machinery,
+\* which regenerates every successor many times)
+Mono == mono
 \* the initial state of every scenario is printed too (sampled values at date 0)
 Zeroth == fresh => PrintT(<<"OBS0", sid, ToJson([t |-> st.now, ast |-> st.ast, val |-> Sampled(P, st)])>>)
 Done == PrintT(<<"DONE", N>>)
